@@ -279,16 +279,19 @@ theorem ext_from_f64 (x : F) :
     ofRV ((envUnitF zero negF d L conv).ext c_from_f64 [.host (.f x)]) = embedOptT (conv x) := by
   cases hc : conv x <;> simp [envUnitF, c_from_f64, hc, embedOptT]
 
+theorem ofRV_host {H : Type} (x : H) : ofRV (RV.host x) = Ctl.val (RV.host x) := rfl
+theorem from_f64_not_ctor : ¬ (c_from_f64 = 1 ∨ c_from_f64 = 2 ∨ c_from_f64 = 3) := by decide
+theorem unit_constant_not_ctor : ¬ (c_unit_constant = 1 ∨ c_unit_constant = 2 ∨ c_unit_constant = 3) := by decide
+
 /-- `from_f64(unit!(@coefficient …))` -/
 theorem run_coefficient_via (body : FnDef) (hb : body = ⟨0, .call1 c_from_f64 (.call0 c_unit_coefficient)⟩) :
     run (envUnitF zero negF d L conv) body [] = (embedOptT (conv d.factor), []) := by
   subst hb
   have h1 := ext_coefficient zero negF d L conv
   have h2 := ext_from_f64 zero negF d L conv d.factor
-  simp only [run, eval, List.range_zero, List.zip_nil_left, h1, ofRV, c_from_f64]
-  simp only [c_from_f64] at h2
-  cases hc : conv d.factor <;> simp [hc, embedOptT] at h2 ⊢ <;>
-    (revert h2; cases (envUnitF zero negF d L conv).ext 60 [RV.host (UH.f d.factor)] <;> simp [ofRV])
+  simp only [run, eval, h1, ofRV_host, cSome, cOk, cErr, if_neg from_f64_not_ctor]
+  rw [h2]
+  cases conv d.factor <;> rfl
 
 /-- `from_f64(unit!(@constant op …))` -/
 theorem run_constant_via (body : FnDef) (hb : body = ⟨1, .call1 c_from_f64 (.call1 c_unit_constant (.var 0))⟩)
@@ -299,12 +302,11 @@ theorem run_constant_via (body : FnDef) (hb : body = ⟨1, .call1 c_from_f64 (.c
   have h1 := ext_constant zero negF d L conv add
   have h2 := ext_from_f64 zero negF d L conv (declConst zero negF d add)
   have hr : List.range 1 = [0] := rfl
-  simp only [run, eval, hr, List.zip_cons_cons, List.zip_nil_left, lookup, if_true, ofRV, h1, c_from_f64, c_unit_constant,
-    cSome, cOk, cErr] 
-  simp only [c_from_f64, c_unit_constant] at h1 h2
-  simp only [show (58 = 1 ∨ 58 = 2 ∨ 58 = 3) = False by simp, show (60 = 1 ∨ 60 = 2 ∨ 60 = 3) = False by simp, if_false, h1]
-  cases hc : conv (declConst zero negF d add) <;> simp [hc, embedOptT] at h2 ⊢ <;>
-    (revert h2; cases (envUnitF zero negF d L conv).ext 60 [RV.host (UH.f (declConst zero negF d add))] <;> simp [ofRV])
+  have hop : ofRV (RV.ctor0 (opCode add) : RV (UH F T R B)) = Ctl.val (RV.ctor0 (opCode add)) := rfl
+  simp only [run, eval, hr, List.zip_cons_cons, List.zip_nil_left, lookup, if_true, hop, cSome, cOk, cErr,
+    if_neg from_f64_not_ctor, if_neg unit_constant_not_ctor, h1, ofRV_host]
+  rw [h2]
+  cases conv (declConst zero negF d add) <;> rfl
 
 /-- **rational-factor storage classes: `coefficient()` is the class's `from_f64` of the declared factor,
     `constant(op)` of the declared constant or of the signed zero** — for the three classes -/
